@@ -87,6 +87,64 @@ def _table(arms, classify, flag_pat, flag):
     return "[" + "; ".join(f"{c}%N" for c in out) + "]"
 
 
+# record kinds of the model (C05_SeqTrust/Model.v): 1 CDoc, 2 singleton CDoc, 3 WDoc, 4 singleton WDoc,
+# 5 CRecord, 6 WRecord (0 = log row)
+_KINDS_OF_TYPEKIND = {"CDoc": [1, 2], "WDoc": [3, 4], "CRecord": [5], "WRecord": [6]}
+_SINGLETON_KINDS = [2, 4]
+
+
+def _store_put_kinds(h, rel):
+    """Which record kinds does apply2's `store` closure hand to putRecordsBatch as "not new" although the
+    CUD says new?  The batch item must be built from rec.isNew; the only deviations this parser
+    understands are `if <singleton test | rec.typ.Kind() == appdef.TypeKind_X> { v = false }` on a copy of
+    rec.isNew.  Anything else that touches the flag is a hard error (correspondence broken)."""
+    body = h.func_body(rel, r"^func \(recs \*appRecordsType\) apply2\(", "apply2")
+    m = re.search(r"store\s*:=\s*func\(rec \*recordType\) error\s*\{", body)
+    if not m:
+        raise h.Missing(f"{rel}: apply2: `store` closure not found")
+    i = m.end() - 1
+    depth, j = 0, i
+    while j < len(body):
+        if body[j] == "{":
+            depth += 1
+        elif body[j] == "}":
+            depth -= 1
+            if depth == 0:
+                break
+        j += 1
+    clo = body[i + 1:j]
+    app = re.search(r"batch\s*=\s*append\(batch,\s*recordBatchItemType\{\s*rec\.ID\(\),\s*data,\s*([\w.]+)\s*\}\)", clo)
+    if not app:
+        raise h.Missing(f"{rel}: apply2.store: batch item is not recordBatchItemType{{rec.ID(), data, <flag>}}")
+    flag = app.group(1)
+    if flag == "rec.isNew":
+        if len(re.findall(r"isNew", clo)) != 1:
+            raise h.Missing(f"{rel}: apply2.store: isNew is mentioned outside the batch item")
+        return []
+    if not re.search(r"\b%s\s*:=\s*rec\.isNew\b" % re.escape(flag), clo):
+        raise h.Missing(f"{rel}: apply2.store: batch flag `{flag}` is not a copy of rec.isNew")
+    kinds = set()
+    rest = clo
+    for blk in re.finditer(r"if\s+([^{}]*?)\{([^{}]*)\}", clo):
+        cond, inner = blk.group(1), blk.group(2)
+        if not re.search(r"\b%s\s*=" % re.escape(flag), inner):
+            continue
+        if not re.fullmatch(r"\s*(//[^\n]*\n\s*)*%s\s*=\s*false\s*" % re.escape(flag), inner):
+            raise h.Missing(f"{rel}: apply2.store: cannot interpret an assignment to `{flag}`")
+        tk = re.findall(r"\.Kind\(\)\s*==\s*appdef\.TypeKind_(\w+)", cond)
+        if "ISingleton" in cond and "Singleton()" in cond and "!" not in cond and not tk:
+            kinds.update(_SINGLETON_KINDS)
+        elif tk and "!" not in cond and "&&" not in cond and all(t in _KINDS_OF_TYPEKIND for t in tk):
+            for t in tk:
+                kinds.update(_KINDS_OF_TYPEKIND[t])
+        else:
+            raise h.Missing(f"{rel}: apply2.store: cannot interpret the condition `{cond.strip()}` under which `{flag}` is cleared")
+        rest = rest.replace(blk.group(0), "")
+    if len(re.findall(r"\b%s\s*=[^=]" % re.escape(flag), rest)) != 0 or not kinds:
+        raise h.Missing(f"{rel}: apply2.store: cannot interpret how `{flag}` is computed")
+    return sorted(kinds)
+
+
 def collect(h):
     items = []
     rel = "pkg/isequencer/consts.go"
@@ -112,6 +170,17 @@ def collect(h):
     h.find(rel, r"return recs\.apply2\(event, cb, false\)", "Apply2 -> apply2(..., false)")
     body = h.func_body(rel, r"^func \(er \*implIEventReapplier\) PutWLog\(", "implIEventReapplier.PutWLog")
     items.append(("c05_reapply_wlog_op", "N", str(_log_op(h, rel, body, "implIEventReapplier.PutWLog")), f"{rel} implIEventReapplier.PutWLog"))
+    # the insert-vs-put flag of every batch row: where it comes from
+    items.append(("c05_store_put_kinds", "list N", "[" + "; ".join(f"{k}%N" for k in _store_put_kinds(h, rel)) + "]",
+                  f"{rel} apply2: store closure (record kinds whose creates are handed on as not-new)"))
+    h.find(rel, r"type recordBatchItemType struct \{\s*id\s+istructs\.RecordID\s*data\s+\[\]byte\s*isNew\s+bool\s*\}", "recordBatchItemType{id, data, isNew}")
+    # rec.isNew is set unconditionally for every created row, built (ICUD.Create) or loaded (loadEventCUDs)
+    h.find("pkg/istructsmem/event-types.go", r"func \(cud \*cudType\) Create\(qName appdef\.QName\) istructs\.IRowWriter \{\s*rec := newRecord\(cud\.appCfg\)\s*rec\.isNew = true\s*rec\.setQName\(qName\)",
+           "cudType.Create sets rec.isNew = true unconditionally")
+    h.find("pkg/istructsmem/event-dynobuf.go", r"for ; count > 0; count-- \{\s*rec := newRecord\(ev\.cud\.appCfg\)\s*rec\.isNew = true\s*if err := loadEventCUD\(rec,",
+           "loadEventCUDs sets rec.isNew = true unconditionally for created rows")
+    if len(re.findall(r"\.isNew\s*=[^=]", h.src("pkg/istructsmem/event-types.go") + h.src("pkg/istructsmem/event-dynobuf.go") + h.src(rel))) != 2:
+        raise h.Missing("pkg/istructsmem: rec.isNew is assigned somewhere else than ICUD.Create and loadEventCUDs")
     # time-to-live handed to InsertIfNotExists by the three writers (0 = rows never expire)
     ttls = set(re.findall(r"storage\.InsertIfNotExists\(pKey, cCols, [\w.]+, (\d+)\)", h.src(rel)))
     if len(ttls) != 1:
